@@ -9,11 +9,12 @@ one burst, byte by byte, line by line and every single cut; ALL segmentations (c
 all-success scripts (quick) / every script with at most one non-success class (thorough).
 """
 import itertools
+import re
 
 from slimta.smtp.client import Client, LmtpClient
 from slimta.smtp import ConnectionLost, BadReply
 
-from engine.core import explore
+from engine.core import HarnessError, Horizon, Prune, explore
 from engine.result import Result
 from engine.seq import ScriptSocket, CutCtl, FixedCtl, AllSegmentations, OverRead
 
@@ -38,8 +39,13 @@ def BOUNDS(tier):
             'segmentations': 'burst, byte, line, every single cut; all segmentations for scripts with 0 (quick) / <=1 (thorough) non-success classes'}
 
 
-def wire(code, tag, nlines):
+ESC3 = re.compile(r'^[245]\.\d{1,3}\.\d{1,3} ')
+
+
+def wire(code, tag, nlines, esc=None):
     lines = ['%s line%d' % (tag, i) for i in range(nlines)]
+    if esc:
+        lines[0] = esc + ' ' + lines[0]          # the server states its own enhanced status code
     out = b''
     for i, l in enumerate(lines):
         sep = b' ' if i == len(lines) - 1 else b'-'
@@ -76,6 +82,9 @@ def build_script(cfg):
         tag = 'r%d-%s' % (len(seq), name)
         if text_override is not None:
             w, t = text_override
+        elif cfg.get('esc3') and code[0] in '245' and name != 'banner':
+            # enhanced status codes with up to three digits per field (RFC 3463), different for every reply
+            w, t = wire(code, tag, nl, '%s.%d.%d' % (code[0], 7 + len(seq), (509, 50, 5, 123)[len(seq) % 4]))
         else:
             w, t = wire(code, tag, nl)
         seq.append((name, code, t, w))
@@ -200,6 +209,10 @@ def session(cfg, sock):
         err = 'connection-lost'
     except BadReply as e:
         err = 'bad-reply'
+    except (Prune, Horizon, HarnessError):
+        raise
+    except Exception as e:
+        err = 'client-raised: %s: %s' % (type(e).__name__, str(e)[:80])
     for name, r in holders:
         msg = r.message
         got.append((name, r.code, msg))
@@ -221,7 +234,9 @@ def expected_of(script):
         if name.startswith('auth-chal'):
             continue            # consumed inside the AUTH exchange, never handed out
         t = text
-        if not name.startswith('ehlo') and name != 'banner' and code[0] in '245':
+        if not name.startswith('ehlo') and name != 'banner' and code[0] in '245' and ESC3.match(text):
+            t = text            # the server's own enhanced status code is kept
+        elif not name.startswith('ehlo') and name != 'banner' and code[0] in '245':
             t = '%s.0.0 %s' % (code[0], text)
         elif name == 'banner':
             t = text
@@ -323,12 +338,30 @@ def extra_scripts(tier):
                         if d1 + d2 <= lim:
                             yield {'lmtp': lmtp, 'pipelining': pipelining, 'n': n, 'empty': False, 'prog': 'two',
                                    'classes': c1 + '|' + c2, 'lshift': (d1 + d2) % 3}
+                # a server that refuses the second MAIL and nevertheless goes on accepting RCPT and DATA (any class to any
+                # command), after a first transaction that ended with a refused DATA and no RSET
+                for m2 in '45':
+                    for c1 in ('2' + '2' * n + '5', '2' + '2' * n + '3' + '2' * (n if lmtp else 1)):
+                        yield {'lmtp': lmtp, 'pipelining': pipelining, 'n': n, 'empty': False, 'prog': 'two',
+                               'classes': c1 + '|' + m2 + '2' * n + '3' + '2' * (n if lmtp else 1), 'lshift': 2}
                 for c1, d1 in txn_classes(lmtp, n, lim):
                     for h2 in '25':
                         if h2 == '2' and _split_classes(c1, n)[2] == '3':
                             continue          # an accepted EHLO/LHLO resets the server: DATA cannot be accepted after it
                         yield {'lmtp': lmtp, 'pipelining': pipelining, 'n': n, 'empty': False, 'prog': 'rehello', 'hello2': h2,
                                'classes': c1, 'lshift': d1 % 3}
+
+
+def esc_scripts(tier):
+    """replies that carry the server's own enhanced status code, with one-, two- and three-digit fields"""
+    for lmtp in (False, True):
+        for pipelining in (True, False):
+            for n in (1, 2):
+                base = '2' + '2' * n + '3' + '2' * (n if lmtp else 1)
+                yield {'lmtp': lmtp, 'pipelining': pipelining, 'n': n, 'empty': False, 'classes': base, 'lshift': 0, 'esc3': True}
+                for cls in ('5' + '2' * n + '5', '2' + '5' + '2' * (n - 1) + ('3' + '2' * ((n - 1) if lmtp else 1) if n > 1 else '5'),
+                            '2' + '2' * n + '5', '2' + '2' * n + '3' + '5' * (n if lmtp else 1), '4' + '2' * n + '5'):
+                    yield {'lmtp': lmtp, 'pipelining': pipelining, 'n': n, 'empty': False, 'classes': cls, 'lshift': 1, 'esc3': True}
 
 
 def auth_scripts(tier):
@@ -409,7 +442,7 @@ def configs(tier, seed):
 
 def run_config(cfg, tier, seed):
     res = Result()
-    for i, sc in enumerate(itertools.chain(scripts(tier), extra_scripts(tier), auth_scripts(tier), auth_late_scripts(tier), dup_scripts(tier), content_scripts(tier))):
+    for i, sc in enumerate(itertools.chain(scripts(tier), extra_scripts(tier), esc_scripts(tier), auth_scripts(tier), auth_late_scripts(tier), dup_scripts(tier), content_scripts(tier))):
         if i % cfg['of'] != cfg['k']:
             continue
         script, outs = run_script(sc, tier, res)
